@@ -420,4 +420,6 @@ def build():
         bank.add(whole, ("snoc", z3.Concat(fa, fb_), fy))
         return [ih], z3.Implies(unresolved.t(cq, fa), unresolved.t(cq, whole))
     lem.append(Lemma("unresolved-prefix", [("base", ur_base), ("step", ur_step)], P))
+    world.trusted_notes.append("annotation model: a field's raw annotation is None | a string | a type (raw_kind); get_type_hints(cls).get(name) is an uninterpreted partial function and may raise NameError")
+    world.trusted_notes.append("process_node_fields iterates the item list of get_field_types' dict (field_types_of); Field objects of one class are distinct (lemma exactly-one-class assumes it)")
     return world, lib, reg, lem
